@@ -6,11 +6,17 @@ FAMILIES = set("number".split(","))
 PREFIXES = "_make_number_method|_number_to_base|js_round|_global_parse|_create_number_constructor|_create_math_object|_global_is".split("|")
 
 
+_CANON = []
+
+
 def _in_family(qual: str) -> bool:
+    if _CANON:
+        qual = _CANON[0](qual)
     return any(p in qual for p in PREFIXES)
 
 
 def run(ctx, rep):
+    _CANON[:] = [ctx.facts.canon_qual]
     tables.rule_method_tables(ctx, rep, "C18-R1", FAMILIES, floor=1)
     try:
         from ..rules import implicit
